@@ -47,6 +47,7 @@ package tengo
 // structural invariants established by the only constructors
 //@ fieldinv SymbolTable.store has_store{C04,C11}: v != nil
 //@ fieldinv Compiler.trace tracing_off{C04,C02}: v == nil
+//@ fieldinv Compiler.compiledModules has_cache{C13}: v != nil
 
 // shared constants are read-only while clones run concurrently (C08): the
 // lazily filled rune cache of String is written by IndexGet and Iterate
@@ -707,6 +708,24 @@ package tengo
 //@   ensures opc_kept: c.scopes[c.scopeIndex].Instructions[opPos] == old(c.scopes[c.scopeIndex].Instructions[opPos])
 //@   ensures others_kept: forall i in 0..len(c.scopes[c.scopeIndex].Instructions) ::
 //@              (i <= opPos || i > opPos + int(spec.sumw(old(c.scopes[c.scopeIndex].Instructions[opPos])))) ==> c.scopes[c.scopeIndex].Instructions[i] == old(c.scopes[c.scopeIndex].Instructions[i])
+
+// compiled-module cache (C13 "a module reached by several paths is compiled once"): a store reaches this
+// compiler's cache and is handed on to the parent compiler, a lookup is answered by the parent when there
+// is one and by this compiler's own cache otherwise - so both meet in the cache of the outermost compiler.
+//@ func (*Compiler).storeCompiledModule
+//@   props C13
+//@   assigns heapmap(map[string]*CompiledFunction)
+//@   ensures here{C13}: haskey(c.compiledModules, modulePath) && c.compiledModules[modulePath] == module
+//@   ensures handed_up{C13}: c.parent != nil ==> calledfn(storeCompiledModule) && callarg(storeCompiledModule, 0) == c.parent
+//@                   && callarg(storeCompiledModule, 1) == modulePath && callarg(storeCompiledModule, 2) == module
+//@   ensures top{C13}: c.parent == nil ==> !calledfn(storeCompiledModule)
+
+//@ func (*Compiler).loadCompiledModule
+//@   props C13
+//@   assigns nothing
+//@   ensures asks_parent{C13}: c.parent != nil ==> calledfn(loadCompiledModule) && callarg(loadCompiledModule, 0) == c.parent
+//@                   && callarg(loadCompiledModule, 1) == modulePath
+//@   ensures top{C13}: c.parent == nil ==> (ok <==> haskey(c.compiledModules, modulePath)) && (ok ==> mod == c.compiledModules[modulePath])
 
 //@ func (*Compiler).enterScope
 //@   requires c.trace == nil && c.symbolTable != nil && 0 <= c.scopeIndex && c.scopeIndex == len(c.scopes) - 1
